@@ -1231,6 +1231,10 @@ def sym_attr(interp, obj, name):
     if isinstance(obj, Arr2D) and name in ("transpose", "T"):
         t = Arr2D(obj.rows, not obj.transposed)
         return eng.BoundModel(lambda interp, o: t, obj, name) if name == "transpose" else t
+    if isinstance(obj, SFmt) and name in ("strip", "lstrip", "rstrip"):
+        # white space removed from a formatted text with symbolic fields: an (uninterpreted) function of the text
+        fn = z3.Function("str_" + name, _Elem, _Elem)
+        return eng.BoundModel(lambda interp, o, *a, **k: ostr(fn(ostr_term(o))), obj, name)
     if isinstance(obj, (SStr, SFmt)) and name == "encode":
         return eng.BoundModel(_anystr_encode, obj, name)
     if isinstance(obj, eng.PyRaiseValue):
@@ -2089,6 +2093,14 @@ def _path_isfile(interp, path):
     return _path_exists(interp, path)
 
 
+@model(_pathlib.Path.is_symlink)
+def _path_is_symlink(interp, path, **kw):
+    """symbolic links are not modelled by the ghost file system (P-RESOLVE): no name is a link; links are
+    exercised by the native harness of C10"""
+    axiom("P-RESOLVE (resolve() of an absolute name is its lexical normal form; no symbolic links)")
+    return False
+
+
 @model(_pathlib.Path.resolve)
 def _path_resolve(interp, path, *a, **k):
     """P-RESOLVE: for a concrete absolute name, resolve() is the lexical normal form ('.' and
@@ -2136,6 +2148,13 @@ def ostr_term(v):
         return ostr_of_int(v.e)
     if isinstance(v, int):
         return ostr_of_int(Z(v))
+    if isinstance(v, SFmt):
+        # a formatted text: the concatenation of its parts
+        acc = None
+        for part in v.parts:
+            t = ostr_term(part)
+            acc = t if acc is None else ostr_concat(acc, t)
+        return acc if acc is not None else ostr_term("")
     raise _engine().Unsupported(f"opaque string from {type(v).__name__}")
 
 
